@@ -37,6 +37,7 @@ from __future__ import annotations
 
 import io
 import itertools
+import json
 
 import numpy as np
 
@@ -671,9 +672,11 @@ def execute(case):
                     viol += judge_unchanged(cls, lab, v, o)
 
     if recs_before is not None and merged is not None:
+        flagged = {json.loads(d)["input"] if isinstance(d, str) else d["input"]
+                   for c, _, d in viol if c == "inputs-unchanged-live"}
         for k, o in enumerate(objs):
             d = observe.diff(recs_before[k], records_of(o))
-            if d:
+            if d and f"in{k}" not in flagged:  # one signature per changed input component
                 part = d[0].split(":")[0].strip("/").split("/")[-1].split("[")[0]
                 viol.append(("inputs-unchanged-live", f"{FAMILY[cls]}: attribute {part}", {"input": f"in{k}", "diff": d[:6]}))
 
